@@ -183,6 +183,17 @@ def gen(ctx, seed, tier):
         for _ in range(500000):
             cases.append("J %s %s" % (s7[r.randrange(n7)], s7[r.randrange(n7)]))
     cases += random_cases(r, 30000 if not thorough else 200000)
+    # long arguments (no length is special: PATH_MAX, 2^16)
+    # (the extracted model is quadratic in the length: a handful of cases up to 4097 bytes; thorough adds 8192)
+    for n in ((255, 256, 4095, 4096, 4097) + ((1023, 1024, 8191, 8192) if thorough else ())):
+        for m in ((1,) if n > 1000 and not thorough else (1, 40)):
+            a = "2f737276" + "64" * max(0, n - m - 5)           # /srv + d...
+            b = "66" * m
+            cases.append("J %s %s" % (a, b))
+            cases.append("J %s 2f%s" % (b, a[2:]))
+            cases.append("R %s2f%s %s" % (a, b, a))
+            cases.append("R %s %s2f%s" % (a, a, b))
+            cases.append("P %s2f%s" % (a, b))
     # the same calls with an allocator that refuses every request (NULL, no write through it)
     s3 = [hx(s) for s in all_strings(3 if not thorough else 4)]
     for a in s3:
